@@ -731,22 +731,28 @@ type c07Term struct {
 }
 
 // match tells whether the entry satisfies the term: the term equals (strict)
-// or is contained in (otherwise), without regard to letter case, the question
-// name (also in its punycode form), the ClientID, the client address or the
-// client name.  withClient excludes the address and the name.
-func (t *c07Term) match(e *c07Entry, withClient bool) bool {
-	lt := strings.ToLower(t.Value)
-	test := func(field, term string) bool {
+// or is contained in (otherwise) the question name (also in its punycode
+// form), the ClientID, the client address or the client name.  Question names
+// are compared without regard to letter case, as DNS names are.  For the other
+// values fold selects the comparison: without it only a match in the same
+// letter case counts (certain under any reading), with it any letter case
+// does (what the product aims at).  withClient=false leaves the address and
+// the name out.
+func (t *c07Term) match(e *c07Entry, withClient, fold bool) bool {
+	test := func(field, term string, foldThis bool) bool {
 		if term == "" {
 			return false
 		}
+		if foldThis {
+			field, term = strings.ToLower(field), strings.ToLower(term)
+		}
 		if t.Strict {
-			return strings.ToLower(field) == term
+			return field == term
 		}
 
-		return strings.Contains(strings.ToLower(field), term)
+		return strings.Contains(field, term)
 	}
-	if test(e.Host, lt) || test(e.Host, strings.ToLower(t.ASCII)) || test(e.CID, lt) {
+	if test(e.Host, t.Value, true) || test(e.Host, t.ASCII, true) || test(e.CID, t.Value, fold) {
 		return true
 	}
 	if !withClient {
@@ -757,7 +763,7 @@ func (t *c07Term) match(e *c07Entry, withClient bool) bool {
 		name = e.Client.Name
 	}
 
-	return test(e.IPStr, lt) || test(name, lt)
+	return test(e.IPStr, t.Value, fold) || test(name, t.Value, fold)
 }
 
 // c07StatusMustMay is the oracle's reading of the response_status values:
@@ -812,7 +818,27 @@ func c07RandTerm(rng *rand.Rand, w *c07World, live []*c07Entry) (t c07Term) {
 
 		return s[a:b]
 	}
-	switch k := rng.Intn(16); {
+	switch k := rng.Intn(18); {
+	case k >= 16:
+		// A quoted term that is only a part of a name, ClientID, address or
+		// client name: it selects nothing unless another value equals it.
+		fields := []string{e.Host, e.IPStr}
+		if e.CID != "" {
+			fields = append(fields, e.CID, e.CID)
+		}
+		if e.Client != nil {
+			fields = append(fields, e.Client.Name)
+		}
+		f := fields[rng.Intn(len(fields))]
+		v := sub(f)
+		if len(f) > 3 && rng.Intn(2) == 0 {
+			if rng.Intn(2) == 0 {
+				v = f[:len(f)-1-rng.Intn(2)]
+			} else {
+				v = f[1+rng.Intn(2):]
+			}
+		}
+		t = c07Term{Value: v, Strict: true, Kind: "quoted-part-of-a-value"}
 	case k <= 2:
 		t = c07Term{Value: sub(e.Host), Kind: "host-substring"}
 	case k == 3:
